@@ -1455,7 +1455,7 @@ class HtmlTreeView(HtmlView):
     # option dicts (e.g. `extra_flags`) too, which the caller still owns and
     # passes on to the siblings of the child being configured.
     def _copy_dicts(v):
-      if type(v) is dict:  # pylint: disable=unidiomatic-typecheck
+      if isinstance(v, dict):
         return {k: _copy_dicts(x) for k, x in v.items()}
       return v
 
